@@ -70,6 +70,10 @@ struct Run<'a, 'b, 'c, 'd> {
 	/// id of the tracked transaction in the op lines: 1 = splice candidate, 0 = the channel funding (family PRE)
 	tid: u32,
 	pre: bool,
+	/// family READY: the tracked transaction is the funding of a channel in ChannelReady state
+	ready: bool,
+	/// READY: the funding was in the told chain at the previous observation
+	was_in_chain: bool,
 	hist: Vec<String>,
 	tag: String,
 }
@@ -133,6 +137,7 @@ impl<'a, 'b, 'c, 'd> Run<'a, 'b, 'c, 'd> {
 
 	fn observe(&mut self, rec: &mut Rec, what: &str, connected: bool) {
 		if self.pre { return self.observe_pre(rec, what, connected); }
+		if self.ready { return self.observe_ready(rec, what); }
 		let msgs = self.node.node.get_and_clear_pending_msg_events();
 		let _ = self.node.node.get_and_clear_pending_events();
 		let mut locked: Vec<u32> = vec![];
@@ -241,7 +246,7 @@ fn scenario_pre(style: ConnectStyle, si: usize, p: Plan, rec: &mut Rec) -> Resul
 	*nodes[0].connect_style.borrow_mut() = style;
 	rec.directive("reset");
 	let mut run = Run { node: &nodes[0], style, splice_txid: funding_tx.compute_txid(), splice: funding_tx.clone(), main_txid: funding_tx.compute_txid(), chan: ch.channel_id, min_depth,
-		locked_since_conf: false, tid: 0, pre: true, hist: vec![], tag: format!("k={} d={} remine={:?} style#{}", p.k, p.d, p.remine, si) };
+		locked_since_conf: false, tid: 0, pre: true, ready: false, was_in_chain: false, hist: vec![], tag: format!("k={} d={} remine={:?} style#{}", p.k, p.d, p.remine, si) };
 	run.op(rec, format!("preset {} {} 0", min_depth, best));
 	run.observe(rec, "start", false);
 	run.connect(rec, true, 0);
@@ -249,6 +254,102 @@ fn scenario_pre(style: ConnectStyle, si: usize, p: Plan, rec: &mut Rec) -> Resul
 	if p.d > 0 { run.disconnect(rec, p.d); }
 	for j in 0..p.grow {
 		let with = p.remine == Some(j) && run.splice_height().is_none();
+		run.connect(rec, with, 4242);
+	}
+	std::mem::forget(nodes);
+	Ok(())
+}
+
+impl<'a, 'b, 'c, 'd> Run<'a, 'b, 'c, 'd> {
+	/// family READY: the tracked transaction is the funding of a channel that exchanged channel_ready (plain / the
+	/// promoted splice funding / zero-conf)
+	fn observe_ready(&mut self, rec: &mut Rec, what: &str) {
+		let _ = self.node.node.get_and_clear_pending_msg_events();
+		let _ = self.node.node.get_and_clear_pending_events();
+		let mut rel: Vec<(u32, u32)> = Confirm::get_relevant_txids(self.node.node).iter().map(|(t, h, _)| (if *t == self.splice_txid { 0 } else { 99 }, *h)).collect();
+		rel.sort();
+		let best = self.node.node.current_best_block().height;
+		let closed = !self.node.node.list_channels().iter().any(|c| c.channel_id == self.chan);
+		let show = |v: Vec<String>| if v.is_empty() { "-".to_string() } else { v.join(",") };
+		let ans = format!("best={} rel={} locked=- closed={}", best, show(rel.iter().map(|(t, h)| format!("{}@{}", t, h)).collect()), if closed { 1 } else { 0 });
+		let sh = self.splice_height();
+		let tip = self.tip();
+		let ctx = |s: &Self| format!("[READY {} style={:?} min_depth={} step={} chain tip={} funding tx in chain at {:?}; manager calls so far: {}]", s.tag, s.style, s.min_depth, what, tip, sh, s.hist.join(" | "));
+		if !closed {
+			let listed: Vec<u32> = rel.iter().filter(|(t, _)| *t == 0).map(|(_, h)| *h).collect();
+			match (sh, listed.as_slice()) {
+				(None, []) => {},
+				(Some(h), [l]) if *l == h => {},
+				(None, l) => rec.oracle_fail(format!("R1 reorganised-out channel funding still listed by ChannelManager::get_relevant_txids (at {:?}) {}", l, ctx(self))),
+				(Some(h), l) => rec.oracle_fail(format!("R1 channel funding confirmed at {} but get_relevant_txids lists it at {:?} {}", h, l, ctx(self))),
+			}
+			if self.min_depth > 0 && self.was_in_chain && sh.is_none() {
+				rec.oracle_fail(format!("R2 the funding of a ready channel (minimum_depth {}) was reorganised out but the channel is still open {}", self.min_depth, ctx(self)));
+			}
+		} else if self.min_depth == 0 {
+			rec.oracle_fail(format!("R3 zero-conf channel closed by a chain call {}", ctx(self)));
+		} else if !self.hist.iter().any(|o| o.contains("=> ") && o.contains("rel=-")) && sh.is_some() && self.was_in_chain && !self.hist.iter().any(|o| o.starts_with("disc") || o.starts_with("unconf")) {
+			rec.oracle_fail(format!("R3 channel closed although its funding never left the chain {}", ctx(self)));
+		}
+		self.was_in_chain = sh.is_some();
+		let o = format!("obs READY,{}:{}:{}", self.tag.replace(' ', ","), self.hist.len(), what);
+		self.hist.push(format!("obs => {}", ans));
+		rec.case(&o, &ans, &format!("ready:{} funding={} closed={}", what.trim_end_matches(char::is_numeric), if sh.is_some() { "in" } else { "out" }, closed), true);
+	}
+}
+
+/// family READY. variant 0: plain announced channel; 1: the splice funding PROMOTED on both nodes
+/// (maybe_promote_splice_funding), then reorganised; 2: zero-conf channel whose funding confirms k deep and is reorganised
+/// out (SCID history, never closes). `dd` = reorg depth relative to the funding's depth (-1: funding stays, 0, +1).
+fn scenario_ready(style: ConnectStyle, si: usize, variant: u8, k: u32, dd: i32, remine: Option<u32>, rec: &mut Rec) -> Result<(), String> {
+	let chanmon_cfgs = leak(create_chanmon_cfgs(2));
+	let node_cfgs = leak(create_node_cfgs(2, chanmon_cfgs));
+	let cfg1 = test_default_channel_config();
+	let cfgs = if variant == 2 { [None, Some(cfg1)] } else { [None, None] };
+	let node_chanmgrs = leak(create_node_chanmgrs(2, node_cfgs, &cfgs));
+	let nodes = create_network(2, node_cfgs, node_chanmgrs);
+	for n in nodes.iter() { connect_blocks(n, 5); } // room below the funding for a reorg one deeper than its confirmation
+	let (tracked, chan) = match variant {
+		0 => { let (_, _, chan, tx) = create_announced_chan_between_nodes_with_value(&nodes, 0, 1, 100_000, 0); (tx, chan) },
+		1 => {
+			let (_, _, chan, _) = create_announced_chan_between_nodes_with_value(&nodes, 0, 1, 100_000, 0);
+			let added = Amount::from_sat(50_000);
+			provide_utxo_reserves(&nodes, 2, added * 2);
+			let contribution = do_initiate_splice_in(&nodes[0], &nodes[1], chan, added);
+			let (splice_tx, _) = splice_channel(&nodes[0], &nodes[1], chan, contribution);
+			mine_transaction(&nodes[0], &splice_tx);
+			mine_transaction(&nodes[1], &splice_tx);
+			let _ = lightning::ln::splicing_tests::lock_splice_after_blocks(&nodes[0], &nodes[1], lightning::chain::channelmonitor::ANTI_REORG_DELAY - 1);
+			connect_blocks(&nodes[0], k);
+			(splice_tx, chan)
+		},
+		_ => {
+			let (tx, chan) = open_zero_conf_channel(&nodes[0], &nodes[1], None);
+			(tx, chan)
+		},
+	};
+	let _ = nodes[0].node.get_and_clear_pending_msg_events();
+	let _ = nodes[0].node.get_and_clear_pending_events();
+	let txid = tracked.compute_txid();
+	let rel0 = Confirm::get_relevant_txids(nodes[0].node);
+	let main_h = rel0.iter().find(|(t, _, _)| *t == txid).map(|(_, h, _)| *h).unwrap_or(0);
+	if variant != 2 && main_h == 0 { return Err("funding not in relevant txids".into()); }
+	let min_depth = nodes[0].node.list_channels().iter().find(|c| c.channel_id == chan).and_then(|c| c.confirmations_required).ok_or("no confirmations_required")?;
+	if (variant == 2) != (min_depth == 0) { return Err(format!("unexpected minimum depth {} for variant {}", min_depth, variant)); }
+	let best = nodes[0].node.current_best_block().height;
+	*nodes[0].connect_style.borrow_mut() = style;
+	rec.directive("reset");
+	let mut run = Run { node: &nodes[0], style, splice_txid: txid, splice: tracked, main_txid: txid, chan, min_depth,
+		locked_since_conf: false, tid: 0, pre: false, ready: true, was_in_chain: main_h != 0, hist: vec![],
+		tag: format!("variant={} k={} dd={} remine={:?} style#{}", variant, k, dd, remine, si) };
+	run.op(rec, format!("reset {} {} 0 {}", min_depth, best, main_h));
+	run.observe(rec, "start", false);
+	if variant == 2 { run.connect(rec, true, 0); run.connect_run(rec, k - 1); }
+	let depth = run.tip() + 1 - run.splice_height().ok_or("funding not in the chain")?;
+	let d = (depth as i32 + dd) as u32;
+	if d > 0 { run.disconnect(rec, d); }
+	for j in 0..3 {
+		let with = remine == Some(j) && run.splice_height().is_none();
 		run.connect(rec, with, 4242);
 	}
 	std::mem::forget(nodes);
@@ -275,7 +376,7 @@ fn scenario(style: ConnectStyle, si: usize, p: Plan, rec: &mut Rec) -> Result<()
 	*nodes[0].connect_style.borrow_mut() = style;
 	rec.directive("reset"); // keeps check's "ops since the last reset" window per scenario
 	let mut run = Run { node: &nodes[0], style, splice_txid: splice_tx.compute_txid(), splice: splice_tx, main_txid, chan, min_depth,
-		locked_since_conf: false, tid: 1, pre: false, hist: vec![], tag: format!("k={} d={} remine={:?} style#{}", p.k, p.d, p.remine, si) };
+		locked_since_conf: false, tid: 1, pre: false, ready: false, was_in_chain: false, hist: vec![], tag: format!("k={} d={} remine={:?} style#{}", p.k, p.d, p.remine, si) };
 	run.op(rec, format!("reset {} {} 0 {} 1", min_depth, best, main_h));
 	run.observe(rec, "start", false);
 	// the splice transaction confirms and is buried k deep
@@ -333,6 +434,29 @@ fn main() {
 				(Ok(()), Some(Err(e))) => { rec.discarded += 1; rec.notes.insert(format!("scenario {:?} style#{}", p, si), e); },
 				(Err(pn), _) => rec.oracle_fail(format!("funding-scope scenario {:?} style#{} ({:?}) panicked: {}", p, si, st, pn.chars().take(300).collect::<String>())),
 				_ => {},
+			}
+		}
+	}
+	// family READY: funding reorg of a fully ready channel (plain / promoted splice funding / zero-conf)
+	for variant in 0..3u8 {
+		for (si, st) in STYLES.iter().enumerate() {
+			if let Some(o) = only_style { if o != si { continue; } }
+			for dd in [-1i32, 0, 1] {
+				for remine in [None, Some(1u32)] {
+					let ks: Vec<u32> = if variant == 2 { vec![1, 3] } else if variant == 1 { vec![1 + rng.below(3) as u32] } else { vec![1] };
+					for k in ks {
+						if !args.thorough && remine.is_some() && dd == -1 { continue; }
+						let st2 = *st;
+						let mut sub: Option<Result<(), String>> = None;
+						let r = guarded(AssertUnwindSafe(|| { sub = Some(scenario_ready(st2, si, variant, k, dd, remine, &mut rec)); }));
+						scenarios += 1;
+						match (r, sub) {
+							(Ok(()), Some(Err(e))) => { rec.discarded += 1; rec.notes.insert(format!("ready variant={} k={} dd={} style#{}", variant, k, dd, si), e); },
+							(Err(pn), _) => rec.oracle_fail(format!("READY scenario variant={} k={} dd={} remine={:?} style#{} ({:?}) panicked: {}", variant, k, dd, remine, si, st, pn.chars().take(300).collect::<String>())),
+							_ => {},
+						}
+					}
+				}
 			}
 		}
 	}
